@@ -39,6 +39,10 @@ NOTES = [
     "the comparisons INSIDE the visitor and the type classes (TupleType.index's bound, argument-count guards of the builtin "
     "definitions, type-argument counts) are part of the model's parameter `inner`, not of the model: off-by-one changes "
     "there are found by the search-only boundary families with the oracle 'an introductory-subset program completes'",
+    "the model's visitor parameter `inner` is a function of the code alone: that the REAL visitor's result does not depend on "
+    "what the same Tifa object / report analysed before (TifaCore.reset re-creates every id-keyed registry) and that cloned type "
+    "objects stay usable after their first use are not modelled - search-only streams: scope-kind histories (every step compared "
+    "with the same text alone on a fresh report) and the reuse families (clone path x ordered uses, must complete)",
     "line bound: relative to the parser numbering nodes 1..nlines (CPython universal newlines) and issues being "
     "located at AST nodes (locate = node.lineno + line_offset)",
     "functions of third-party modules pedal also describes (designer, drafter, PIL, matplotlib, microbit, bakery, "
@@ -304,6 +308,12 @@ def correspond(rng, tier, driver):
     return res
 
 
+def gated(name):
+    """Input families that exposed a failure of the tree they were first run on (repaired by fix commits 7c87412 / 458054d).
+    ON by default now that the repairs are accepted; NAME=0 in the environment switches a family off."""
+    return os.environ.get(name, "1") not in ("", "0")
+
+
 def parse_wrap(ans):
     if not ans.startswith("ok"):
         return [{"error": ans}]
@@ -348,7 +358,15 @@ def search(rng, tier, broken, corr):
                     "(quick: packed per group, thorough: also every fragment on its own); calls with *args/**kwargs (must only "
                     "return); STATE-LEAK probes: element value x container construction x access path, read-then-write of an "
                     "attribute name no earlier probe used (a leak stays in the process and would hide later ones), each analysed "
-                    "twice on fresh reports",
+                    "twice on fresh reports; REUSE families (must complete): dict/list/tuple/set/str literal x ~40 ways its type reaches a name "
+                    "(copy(), copy.copy, constructor, returned, parameter, + * slices sorted reversed, element of a concatenated / repeated / "
+                    "copied list, value of a copied dict, instance field, globals()/locals()/vars()) x ordered pairs and triples of uses (key "
+                    "lookups out of and in literal order, loops, items(), get/len, stores); SCOPE-KIND HISTORIES: 35 one-scope blocks (class "
+                    "bodies, function calls with annotated/unused/global-writing locals, methods, lambdas, comprehensions, imports of a second "
+                    "student file / a standard / a missing module, branches, loops) - every ordered pair and random chains of 3..6 programs of "
+                    "1..3 blocks on ONE report (MAIN_REPORT / own report with / without submission) or ONE Tifa object (process_code, the first "
+                    "program once more at the end): every step's success, issues and attached feedback equal those of the same text alone on a "
+                    "fresh report",
             "evaluations": 0, "distinct_nontrivial": 0, "samples": [], "skipped": {}, "families": {}, "family_seconds": {},
             "feedback_on_MAIN_REPORT_although_another_report_was_passed": 0}
     first = {}
@@ -410,6 +428,9 @@ def search(rng, tier, broken, corr):
             consider(code, True, "boundary/" + origin, det=False, repeats=1)
         for origin, code in b_star:
             consider(code, False, "boundary/" + origin, det=False, repeats=1)
+    # reuse families: a value whose type went through clone()/copy/constructor/operator, used several times in every order
+    for origin, code in tw.pack_fragments(tw.reuse_fragments(full=(tier == "thorough"), self_store=gated("C18_SELF_STORE_REUSE")), False):
+        consider(code, True, "boundary/" + origin, det=False, repeats=1)
     for t, n, code in progs:
         if code is None:
             skip("table row without a call (third-party module: outside the subset)" if t.startswith("extmodule:")
@@ -482,6 +503,33 @@ def search(rng, tier, broken, corr):
                                                                    a + "\n#----\n" + b, "history", {}))
     for i in range(20 * mult):
         section_history(rng, first, info)
+    # scope-kind histories: what one Tifa object / one report keeps between analyses of DIFFERENT programs
+    t0 = time.time()
+    n_mixed, n_chains = (60, 150) if tier == "quick" else (400, 3000)
+    for codes, mode, desc in tw.scope_histories(rng, n_mixed, n_chains, several_student_imports=gated("C18_STUDENT_IMPORT_HISTORIES"),
+                                                  full=(tier == "thorough")):
+        bad, recs = tw.history_oracle(codes, mode)
+        info["evaluations"] += len(recs)
+        info["families"]["scope-history"] = info["families"].get("scope-history", 0) + 1
+        info["families"]["scope-history/" + mode] = info["families"].get("scope-history/" + mode, 0) + 1
+        if recs and "setup_error" in recs[0]:
+            skip("history setup failed: " + recs[0]["setup_error"])
+        for sig, what, k in bad:
+            key = json.dumps(sig, sort_keys=True)
+            if key in first:
+                continue
+            small = tw.shrink_history(codes[:k + 1] if k + 1 <= len(codes) and k >= 1 else codes, mode, sig)
+            again = [w for s_, w, _ in tw.history_oracle(small, mode)[0] if s_ == sig]
+            first[key] = (sig, (again[0] if again else what) + " | history: " + desc,
+                          "\n#---- next program on the same report ----\n".join(small), "history",
+                          {"history_case": {"codes": small, "mode": mode}})
+    info["family_seconds"]["scope-history"] = round(time.time() - t0, 3)
+    info["switchable_inputs"] = {
+        "C18_STUDENT_IMPORT_HISTORIES": "histories in which more than one analysis imports a second student file (before fix 458054d the visited "
+                                        "module was kept on the report with closures over the earlier analysis's scope ids); =0 switches them off",
+        "C18_SELF_STORE_REUSE": "an element stored back into its own container, then a clone (before fix 7c87412 set_index was called on the "
+                                "element, a dict became its own value type and clone() recursed); =0 switches them off",
+        "enabled": [g for g in ("C18_STUDENT_IMPORT_HISTORIES", "C18_SELF_STORE_REUSE") if gated(g)]}
 
     failures = []
     for key, (sig, what, code, origin, kw) in first.items():
@@ -489,7 +537,7 @@ def search(rng, tier, broken, corr):
         rp = {"code": small, "origin": origin, "kwargs": kw, "must_complete": sig.get("kind") == "analysis-failed"}
         if small != code:
             rp["unshrunk_code"] = code
-        if sig.get("kind") == "nondeterministic":
+        if sig.get("kind") == "nondeterministic" and origin != "history":
             alone = tw.standalone_nondeterministic(small, kw.get("filename"))
             rp["reproduces_in_a_new_interpreter"] = alone
             if not alone:
@@ -592,6 +640,16 @@ def replay(payload):
         print(json.dumps(payload, indent=1)[:4000])
         return 0
     kw = rp.get("kwargs") or {}
+    if "history_case" in kw:
+        case = kw["history_case"]
+        for k, c in enumerate(case["codes"]):
+            print("# ---- program %d (%s)" % (k + 1, case["mode"]))
+            print(c)
+        bad, recs = tw.history_oracle(case["codes"], case["mode"])
+        print("observed:", json.dumps(recs, indent=1)[:3000])
+        print("alone   :", json.dumps([tw.fresh_step(c, case["mode"]) for c in case["codes"]], indent=1)[:3000])
+        print("oracle  :", [(s_, w) for s_, w, _ in bad])
+        return 0
     print(code)
     obs = tw.observe(code, **kw)
     print("observed:", json.dumps(obs, indent=1)[:3000])
